@@ -16,7 +16,7 @@ for d in sorted(glob.glob("/verif/seeded/*/")):
         "property": am.get("property", sid.split("-")[0]),
         "origin": "written by an independent sub-agent that saw only the property text and a scratch worktree of /repo",
         "summary": am.get("summary", ""),
-        "needs_to_manifest": am.get("needs", ""),
+        "needs_to_manifest": am.get("needs") or am.get("needs_to_manifest", ""),
         "files": am.get("files", []),
         "demonstration": {"file": "demo.rs", "location_in_repo": ver.get("demo_location", am.get("demo_location", "derive/tests/demo_seed.rs")),
                           "command": ver.get("demo_command", am.get("demo_command", "cargo test -p pest_typed_derive --test demo_seed --offline"))},
